@@ -276,6 +276,23 @@ impl GOcc {
         ensures *final(heap) == *old(heap))]
     pub fn remove(self) -> GroupState { unimplemented!() }
 }
+/// the other ways of taking an entry of the group map apart (dashmap `VacantEntry::insert`, `OccupiedEntry::into_ref`, `Default`): none of
+/// them touches the ghost heap -- an absent entry and an entry without members and listeners are the same thing there.
+/// (`VacantEntry::insert` is only specified for a state that has no members and no listeners, e.g. `GroupState::default()`.)
+verus! {
+impl GroupState {
+    #[verifier::external_body]
+    pub fn default() -> GroupState { unimplemented!() }
+}
+impl GVac {
+    #[verifier::external_body]
+    pub fn insert(self, v: GroupState) -> (r: GRefMut) ensures r.key == self.key { unimplemented!() }
+}
+impl GOcc {
+    #[verifier::external_body]
+    pub fn into_ref(self) -> (r: GRefMut) ensures r.key == self.key { unimplemented!() }
+}
+}
 #[verus_verify]
 impl Entry<GOcc, GVac> {
     /// `entry.or_default()`: an absent entry is created empty (absent == empty in the ghost heap)
